@@ -144,7 +144,7 @@ def gen_plan(rng, tier='quick', traces=None):
         schedule.append({'c': c, 'k': k, 'dup': True})
     # per-call pristine reference for a sample of steps (fork per call is the cost)
     iso = {}
-    budget_iso = rng.choice([0, 4, 8, 16])
+    budget_iso = rng.choice([0, 0, 3, 6, 10])
     cand = [(c, k) for c in range(nclients) for k, stp in enumerate(clients[c]['steps']) if not stp['fn'].startswith('caller.')]
     chosen = rng.sample(cand, min(len(cand), budget_iso))
     chosen += [(c, k) for c, k in cand if clients[c]['steps'][k].get('probe') and (c, k) not in chosen]
@@ -723,6 +723,9 @@ class Adapter(object):
                     fn(*args)
                 except Exception:
                     pass
+        import gc
+        gc.collect()
+        gc.freeze()      # children are forked constantly: keep the collector from touching (and copying) inherited pages
         if tier == 'thorough':
             from . import c15
             ad = c15.Adapter()
